@@ -647,6 +647,8 @@ type stats struct {
 	seqs, steps int64
 }
 
+var stopFlag int32
+
 // runSeq replays seq on a fresh state, checking after each step; returns the failure, if any.
 func runSeq(tc typeCombo, n, off, ln int, seq []op, deepLast bool) (fail string) {
 	defer func() {
@@ -671,6 +673,15 @@ func runSeq(tc typeCombo, n, off, ln int, seq []op, deepLast bool) (fail string)
 func explore(r *ev.Run, j job, depth int, st *stats, states *ev.Counter, opsSeen *ev.Counter) {
 	var rec func(seq []op)
 	rec = func(seq []op) {
+		if atomic.LoadInt32(&stopFlag) != 0 {
+			return
+		}
+		if n := atomic.AddInt64(&st.seqs, 0); n%4096 == 0 && r.OverBudget(budget(r)) {
+			if atomic.CompareAndSwapInt32(&stopFlag, 0, 1) {
+				r.NotExhaustive(fmt.Sprintf("time budget hit inside job %s off=%d len=%d (depth %d); jobs are ordered simplest first", j.tc.name, j.off, j.len, depth))
+			}
+			return
+		}
 		// replay to get the state (fresh real object each time)
 		var s *state
 		fail := func() (fail string) {
@@ -768,6 +779,8 @@ func main() {
 			}
 		}
 	}
+	// simplest first: small views (small alphabets) before large ones
+	sort.SliceStable(jobs, func(a, b int) bool { return jobs[a].off+jobs[a].len < jobs[b].off+jobs[b].len })
 	var st stats
 	states := ev.NewCounter()
 	opsSeen := ev.NewCounter()
@@ -775,8 +788,9 @@ func main() {
 	ev.Parallel(len(jobs), runtime.NumCPU(), func(i int) {
 		j := jobs[i]
 		d := depth
-		// one extra level for the pointer-free single-column type (cheap)
-		if deepCombos[j.tc.name] && (r.Thorough() || j.off+j.len <= 4) {
+		// one extra level for the pointer-free single-column type, from the smaller views
+		// (the number of sequences grows with alphabet^depth; alphabet ~ 40-70 operations)
+		if deepCombos[j.tc.name] && ((!r.Thorough() && j.off+j.len <= 4) || (r.Thorough() && j.off+j.len <= 3)) {
 			d = depth + 1
 		}
 		if r.OverBudget(budget(r)) {
@@ -806,7 +820,7 @@ func main() {
 
 func budget(r *ev.Run) time.Duration {
 	if r.Thorough() {
-		return 20 * time.Minute
+		return 12 * time.Minute
 	}
 	return 4 * time.Minute
 }
